@@ -27,6 +27,58 @@ class _R:
     def match(self, path): return self.table.get(path)
 
 
+class TDu:
+    """integer-backed stand-in for datetime.timedelta with microsecond resolution (comparable with real timedeltas)"""
+    def __init__(self, us): self.us = us
+    @staticmethod
+    def _v(o): return o.us if isinstance(o, TDu) else (o.days * 86400 + o.seconds) * 10**6 + o.microseconds
+    def __lt__(self, o): return self.us < TDu._v(o)
+    def __le__(self, o): return self.us <= TDu._v(o)
+    def __gt__(self, o): return self.us > TDu._v(o)
+    def __ge__(self, o): return self.us >= TDu._v(o)
+    def __eq__(self, o): return isinstance(o, (TDu, datetime.timedelta)) and self.us == TDu._v(o)
+    def __ne__(self, o): return not self.__eq__(o)
+    __hash__ = None
+    def __floordiv__(self, o): return self.us // TDu._v(o) if isinstance(o, (TDu, datetime.timedelta)) else TDu(self.us // o)
+    def __mod__(self, o): return TDu(self.us % TDu._v(o))
+    def __sub__(self, o): return TDu(self.us - TDu._v(o))
+    def __add__(self, o): return TDu(self.us + TDu._v(o))
+    def total_seconds(self): return self.us / 10**6
+    @property
+    def days(self): return self.us // (86400 * 10**6)
+    @property
+    def seconds(self): return (self.us // 10**6) % 86400
+    @property
+    def microseconds(self): return self.us % 10**6
+
+
+class FakeDTu:
+    """integer-backed stand-in for a datetime (microseconds of the wall-clock fields since 1970-01-01 00:00:00, UTC offset in seconds)"""
+    def __init__(self, wall_us, off, aware): self.w = wall_us; self.off = off; self.aware = aware
+    @property
+    def tzinfo(self): return datetime.timezone.utc if (self.aware and self.off == 0) else (_TZ(self.off) if self.aware else None)
+    def replace(self, tzinfo=True, **kw):
+        if kw: raise NotImplementedError
+        if tzinfo is True: return FakeDTu(self.w, self.off, self.aware)
+        if tzinfo is None: return FakeDTu(self.w, 0, False)
+        d = tzinfo.utcoffset(None)
+        return FakeDTu(self.w, d.days * 86400 + d.seconds if not isinstance(d, TDu) else d.us // 10**6, True)
+    def astimezone(self, tz=None):
+        inst = self.w - self.off * 10**6 if self.aware else self.w
+        return FakeDTu(inst, 0, True)
+    def __sub__(self, o):
+        if hasattr(o, 'utctimetuple'):
+            if (o.tzinfo is None) == self.aware: raise TypeError("can't subtract offset-naive and offset-aware datetimes")
+            import calendar
+            return TDu((self.w - self.off * 10**6 if self.aware else self.w) - calendar.timegm(o.utctimetuple()) * 10**6 - o.microsecond)
+        return NotImplemented
+
+
+class _TZ:
+    def __init__(self, off): self.off = off
+    def utcoffset(self, dt): return TDu(self.off * 10**6)
+
+
 class _H(W.DigitalRFEventHandler):
     def __init__(self): pass
     def on_any_event(self, e): self.log.append(('any', e.event_type, e.src_path, getattr(e, 'dest_path', '')))
@@ -36,35 +88,40 @@ class _H(W.DigitalRFEventHandler):
     def on_moved(self, e): self.log.append(('moved', e.src_path, e.dest_path))
 
 
-def _mk(src_ok, dst_ok, s_secs, s_frac, d_secs, d_frac, timed, start, end):
+def _mk(src_ok, dst_ok, s_secs, s_frac, d_secs, d_frac, timed, start, end, sub=0, sube=0, off=0, aware=False):
+    """handler built by the REAL constructor from start / end datetimes (start, end in ms + sub, sube microseconds; naive = UTC or aware with
+    UTC offset `off` seconds); afterwards only the compiled regexes are replaced by stub matchers"""
     h = _H(); h.log = []
+    st = None if start is None else FakeDTu(start * 1000 + sub + (off * 10**6 if aware else 0), off, aware)
+    en = None if end is None else FakeDTu(end * 1000 + sube + (off * 10**6 if aware else 0), off, aware)
+    W.DigitalRFEventHandler.__init__(h, starttime=st, endtime=en)
     table = {}
     if src_ok: table['/w/ch/SRC'] = _M(s_secs, s_frac, timed)
     if dst_ok: table['/w/ch/DST'] = _M(d_secs, d_frac, timed)
     h._regexes = [_R(table)]; h._ignore_regexes = []; h._ignore_directories = True
-    h.starttime = None if start is None else datetime.timedelta(milliseconds=start)
-    h.endtime = None if end is None else datetime.timedelta(milliseconds=end)
     return h
 
 
-def _in_window(secs, frac, start, end):
-    t = secs * 1000 + (frac or 0)
-    return (start is None or t >= start) and (end is None or t <= end)
+def _in_window(secs, frac, start, end, sub=0, sube=0):
+    t = (secs * 1000 + (frac or 0)) * 1000
+    return (start is None or t >= start * 1000 + sub) and (end is None or t <= end * 1000 + sube)
 
 
-def _dispatch_simple(kind: int, ok: bool, secs: int, frac: Optional[int], start: Optional[int], end: Optional[int]) -> bool:
+def _dispatch_simple(kind: int, ok: bool, secs: int, frac: Optional[int], start: Optional[int], end: Optional[int], sub: int, sube: int, off: int, aware: bool) -> bool:
     """
     pre: 0 <= kind <= 2 and 0 <= secs <= 10**9 and (frac is None or 0 <= frac <= 999)
     pre: (start is None or 0 <= start <= 10**12) and (end is None or 0 <= end <= 10**12)
+    pre: 0 <= sub <= 999 and 0 <= sube <= 999 and -86399 <= off <= 86399
     post: _
     """
+    # the window bounds are datetimes with microsecond resolution, naive (= UTC) or aware with any UTC offset
     # created / modified / deleted events on one path: delivered iff the path matches and start <= secs*1000+frac <= end (both inclusive)
-    h = _mk(ok, False, secs, frac, 0, 0, True, start, end)
+    h = _mk(ok, False, secs, frac, 0, 0, True, start, end, sub, sube, off, aware)
     if kind == 0: ev, name = FileCreatedEvent('/w/ch/SRC'), 'created'
     elif kind == 1: ev, name = FileModifiedEvent('/w/ch/SRC'), 'modified'
     else: ev, name = FileDeletedEvent('/w/ch/SRC'), 'deleted'
     h.dispatch(ev)
-    want = ok and _in_window(secs, frac, start, end)
+    want = ok and _in_window(secs, frac, start, end, sub, sube)
     if not want: return h.log == []
     return h.log == [('any', name, '/w/ch/SRC', ''), (name, '/w/ch/SRC')]
 
